@@ -27,6 +27,40 @@ Definition oracle_float (r0 r1 ob os : Z) : Z :=
   let x1 := fquo P (fadd P (fneg b) (fsqrt P d)) (of_int P (1000 - c)) in
   fint x1.
 
+(* ---- the abstract book: sort key and insertion ------------------------------------- *)
+(* dir = true: orders whose maker buys the sorted pair's coin0 (taker sells coin0);
+   the key is the 53-bit price in the sorted orientation *)
+Definition sort_key (dir : bool) (l : order) : fl :=
+  if dir then of_rat order_precision (osell l) (obuy l)
+  else of_rat order_precision (obuy l) (osell l).
+
+(* before dir a b: a is consumed before b *)
+Definition before (dir : bool) (a b : order) : bool :=
+  let c := fcmp (sort_key dir a) (sort_key dir b) in
+  let c := if dir then c else - c in
+  if c =? 1 then true else if c =? 0 then oid a <? oid b else false.
+
+Fixpoint insert_order (dir : bool) (l : order) (book : list order) : list order :=
+  match book with
+  | [] => [l]
+  | x :: rest => if before dir l x then l :: x :: rest else x :: insert_order dir l rest
+  end.
+
+Definition sort_book (dir : bool) (ls : list order) : list order :=
+  fold_right (insert_order dir) [] ls.
+
+(* removeLimitOrder on the abstract book: returns (book', returned WantSell) or Nil when
+   the id is not live *)
+Fixpoint remove_order (id : Z) (book : list order) : option (list order * order) :=
+  match book with
+  | [] => None
+  | l :: rest => if oid l =? id then Some (rest, l) else
+                 match remove_order id rest with
+                 | Some (r, x) => Some (l :: r, x)
+                 | None => None
+                 end
+  end.
+
 (* amount1 := Float.SetRat(priceRat * amount0).Int() *)
 Definition rat_mul_int (os ob a0 : Z) : Z := fint (of_rat_auto (os * a0) ob).
 (* amount0 := Float.SetRat(amount1 / priceRat).Int() *)
@@ -181,24 +215,35 @@ Definition calc_diff_pool (ain aout : Z) (fs : list fill) : Z * Z * Z * Z :=
    WantSell refunded ("little"); empty orders are removed. Returns (book', refunds). *)
 Definition is_empty (b s : Z) : bool := (b =? 0) || (s =? 0).
 
-Fixpoint apply_fill (f : fill) (book : list order) : list order * list (Z * Z * Z) :=
+(* the order a fill refers to is taken out of the book; its remainder, if it stays open,
+   is re-filed under its new 53-bit price (the implementation marks it "unsorted" and
+   re-inserts it) *)
+Fixpoint take_order (id : Z) (book : list order) : option (order * list order) :=
   match book with
-  | [] => ([], [])
-  | l :: rest =>
-    if oid l =? fid f then
-      let b := obuy l - fbuy f in let s := osell l - fsell f in
-      if is_empty b s then (rest, []) else
-      if (b <? minimum_order_volume) || (s <? minimum_order_volume)
-      then (rest, [(oid l, oowner l, s)])
-      else ({| oid := oid l; obuy := b; osell := s; oowner := oowner l; oheight := oheight l |} :: rest, [])
-    else let '(r, x) := apply_fill f rest in (l :: r, x)
+  | [] => None
+  | l :: rest => if oid l =? id then Some (l, rest) else
+                 match take_order id rest with
+                 | Some (x, r) => Some (x, l :: r)
+                 | None => None
+                 end
   end.
 
-Fixpoint apply_fills (fs : list fill) (book : list order) : list order * list (Z * Z * Z) :=
+Definition apply_fill (dir : bool) (f : fill) (book : list order) : list order * list (Z * Z * Z) :=
+  match take_order (fid f) book with
+  | None => (book, [])
+  | Some (l, rest) =>
+    let b := obuy l - fbuy f in let s := osell l - fsell f in
+    if is_empty b s then (rest, []) else
+    if (b <? minimum_order_volume) || (s <? minimum_order_volume)
+    then (rest, [(oid l, oowner l, s)])
+    else (insert_order dir {| oid := oid l; obuy := b; osell := s; oowner := oowner l; oheight := oheight l |} rest, [])
+  end.
+
+Fixpoint apply_fills (dir : bool) (fs : list fill) (book : list order) : list order * list (Z * Z * Z) :=
   match fs with
   | [] => (book, [])
-  | f :: fs' => let '(b1, x1) := apply_fill f book in
-                let '(b2, x2) := apply_fills fs' b1 in (b2, x1 ++ x2)
+  | f :: fs' => let '(b1, x1) := apply_fill dir f book in
+                let '(b2, x2) := apply_fills dir fs' b1 in (b2, x1 ++ x2)
   end.
 
 Record trade_result := {
@@ -211,7 +256,7 @@ Record trade_result := {
 }.
 
 (* PairV2.SellWithOrders + SwapV2.PairSellWithOrders *)
-Definition sell_with_orders (r0 r1 : Z) (book : list order) (amount0In minOut : Z) : outcome trade_result :=
+Definition sell_with_orders (dir : bool) (r0 r1 : Z) (book : list order) (amount0In minOut : Z) : outcome trade_result :=
   if negb (0 <? amount0In) then Panic 3 else
   let ain := amount0In - com1000 amount0In in
   if negb (0 <? ain) then Panic 3 else
@@ -221,7 +266,7 @@ Definition sell_with_orders (r0 r1 : Z) (book : list order) (amount0In minOut : 
   | Val (out, fs) =>
     if negb (0 <? out) then Panic 2 else
     let '(c0, c1, a0, a1) := calc_diff_pool ain out fs in
-    let '(book', refunds) := apply_fills fs book in
+    let '(book', refunds) := apply_fills dir fs book in
     if out <? minOut then Panic 5 else
     Val {| t_in := amount0In; t_out := out; t_r0 := r0 + a0 + c0; t_r1 := r1 - a1 + c1;
            t_fills := fs; t_book := book'; t_refunds := refunds; t_burn := com1000 amount0In |}
@@ -229,7 +274,7 @@ Definition sell_with_orders (r0 r1 : Z) (book : list order) (amount0In minOut : 
 
 (* PairV2.BuyWithOrders + SwapV2.PairBuyWithOrders (which compares amount1Out, not the
    computed input, with maxAmount0In — transliterated as written) *)
-Definition buy_with_orders (r0 r1 : Z) (book : list order) (maxIn amount1Out : Z) : outcome trade_result :=
+Definition buy_with_orders (dir : bool) (r0 r1 : Z) (book : list order) (maxIn amount1Out : Z) : outcome trade_result :=
   if negb (0 <? amount1Out) then Panic 3 else
   match sfb_loop r0 r1 amount1Out book with
   | Panic s => Panic s
@@ -237,7 +282,7 @@ Definition buy_with_orders (r0 r1 : Z) (book : list order) (maxIn amount1Out : Z
   | Val (ain, fs) =>
     if negb (0 <? ain) then Panic 2 else
     let '(c0, c1, a0, a1) := calc_diff_pool ain amount1Out fs in
-    let '(book', refunds) := apply_fills fs book in
+    let '(book', refunds) := apply_fills dir fs book in
     let ain' := ain + com0999 ain in
     if maxIn <? amount1Out then Panic 5 else
     Val {| t_in := ain'; t_out := amount1Out; t_r0 := r0 + a0 + c0; t_r1 := r1 - a1 + c1;
@@ -252,36 +297,3 @@ Definition buy_with_orders_x := buy_with_orders oracle_float rat_div_int.
 Definition bfs_loop_x := bfs_loop oracle_float rat_mul_int.
 Definition sfb_loop_x := sfb_loop oracle_float rat_div_int.
 
-(* ---- the abstract book: sort key and insertion ------------------------------------- *)
-(* dir = true: orders whose maker buys the sorted pair's coin0 (taker sells coin0);
-   the key is the 53-bit price in the sorted orientation *)
-Definition sort_key (dir : bool) (l : order) : fl :=
-  if dir then of_rat order_precision (osell l) (obuy l)
-  else of_rat order_precision (obuy l) (osell l).
-
-(* before dir a b: a is consumed before b *)
-Definition before (dir : bool) (a b : order) : bool :=
-  let c := fcmp (sort_key dir a) (sort_key dir b) in
-  let c := if dir then c else - c in
-  if c =? 1 then true else if c =? 0 then oid a <? oid b else false.
-
-Fixpoint insert_order (dir : bool) (l : order) (book : list order) : list order :=
-  match book with
-  | [] => [l]
-  | x :: rest => if before dir l x then l :: x :: rest else x :: insert_order dir l rest
-  end.
-
-Definition sort_book (dir : bool) (ls : list order) : list order :=
-  fold_right (insert_order dir) [] ls.
-
-(* removeLimitOrder on the abstract book: returns (book', returned WantSell) or Nil when
-   the id is not live *)
-Fixpoint remove_order (id : Z) (book : list order) : option (list order * order) :=
-  match book with
-  | [] => None
-  | l :: rest => if oid l =? id then Some (rest, l) else
-                 match remove_order id rest with
-                 | Some (r, x) => Some (l :: r, x)
-                 | None => None
-                 end
-  end.
